@@ -5,6 +5,7 @@ mod syncmsg;
 mod c04;
 mod c05;
 mod c06;
+mod c07api;
 mod c08;
 mod c09;
 mod c10;
@@ -72,12 +73,13 @@ fn run<P: Property>(p: P, args: &[String], quick_cases: usize, thorough_cases: u
     }
 }
 
-/// two harnesses under one property id (C07: the store and the store actor)
-fn run2<P: Property, Q: Property>(p: P, q: Q, args: &[String], quick: (usize, usize), thorough_n: (usize, usize)) -> ! {
+/// three harnesses under one property id (C07: the store, the store actor, the client API)
+fn run3<P: Property, Q: Property, R: Property>(p: P, q: Q, r3: R, args: &[String], quick: (usize, usize, usize), thorough_n: (usize, usize, usize)) -> ! {
     if let Some(path) = arg(args, "--replay") {
         let path = PathBuf::from(path);
         let is_q = path.file_name().and_then(|f| f.to_str()).map(|f| f.contains(q.case_prefix()) && !q.case_prefix().is_empty()).unwrap_or(false);
-        let ok = if is_q { replay_property(&q, &path) } else { replay_property(&p, &path) }.unwrap_or_else(|e| {
+        let is_r = path.file_name().and_then(|f| f.to_str()).map(|f| f.contains(r3.case_prefix()) && !r3.case_prefix().is_empty()).unwrap_or(false);
+        let ok = if is_r { replay_property(&r3, &path) } else if is_q { replay_property(&q, &path) } else { replay_property(&p, &path) }.unwrap_or_else(|e| {
             println!("replay failed: {e:#}");
             false
         });
@@ -97,8 +99,11 @@ fn run2<P: Property, Q: Property>(p: P, q: Q, args: &[String], quick: (usize, us
     let out = arg(args, "--out").map(PathBuf::from);
     let cfg1 = mk(if thorough { thorough_n.0 } else { quick.0 });
     let cfg2 = mk(if thorough { thorough_n.1 } else { quick.1 });
+    let cfg3 = mk(if thorough { thorough_n.2 } else { quick.2 });
     start_watchdog(p.id(), cfg1.replay_dir.clone(), std::time::Duration::from_secs(std::env::var("VERIF_HANG_SECS").ok().and_then(|s| s.parse().ok()).unwrap_or(120)));
-    let r = run_property(&p, &cfg1).and_then(|a| run_property(&q, &cfg2).map(|b| merge_reports(a, b)));
+    let r = run_property(&p, &cfg1)
+        .and_then(|a| run_property(&q, &cfg2).map(|b| merge_reports(a, b, "actor")))
+        .and_then(|a| run_property(&r3, &cfg3).map(|b| merge_reports(a, b, "api")));
     match r {
         Ok(report) => print_and_exit(&report, out.as_deref()),
         Err(e) => {
@@ -131,7 +136,7 @@ fn main() {
         "C14" => run(c14::C14::new(), &args, 500, 8000),
         "C15" => run(storeprops::StoreProp::new("C15"), &args, 2000, 30000),
         "C18" => run(storeprops::StoreProp::new("C18"), &args, 300, 4000),
-        "C07" => run2(storeprops::StoreProp::new("C07"), c14::C14::capabilities(), &args, (2000, 400), (30000, 6000)),
+        "C07" => run3(storeprops::StoreProp::new("C07"), c14::C14::capabilities(), c07api::C07Api::new(), &args, (2000, 400, 150), (30000, 6000, 2500)),
         _ => {
             eprintln!("usage: verif-harness <property> [--tier quick|thorough] [--seed N] [--cases N] [--out file] [--replay file]");
             std::process::exit(2)
